@@ -304,7 +304,9 @@ func hsum(parts ...any) []byte {
 	return h[:]
 }
 
-func hostFrom(prefix string, h []byte) string { return prefix + "-" + hex.EncodeToString(h[:4]) + "." + zone }
+func hostFrom(prefix string, h []byte) string {
+	return prefix + "-" + hex.EncodeToString(h[:4]) + "." + zone
+}
 
 // mkRR builds one record of type t whose RDATA is derived from h.
 func mkRR(owner string, t, class uint16, ttl uint32, h []byte) dns.RR {
